@@ -54,13 +54,14 @@ theorem parse_empty (m : Nat) : build [] = [] ∧ parse m [] = [⟨[], []⟩] :=
 /-! ### layout independence -/
 
 /-- The parse result does not depend on how sequence lines are wrapped (any line lengths ≥ 1), on blank
-lines, on `;` comment lines, on CRLF line ends, or on a missing final newline. -/
+lines — empty ones and lines of blanks and tabs (skipped since fix 2e08c5c) —, on `;` comment lines, on
+CRLF line ends, or on a missing final newline. -/
 theorem parse_layout (m : Nat) (rs : List Rec) (ℓ : FastaLayout) (h : WFRecs rs) (hℓ : WFLayout ℓ)
     (hfit : LinesFit m (layoutFasta rs ℓ)) : parse m (layoutFasta rs ℓ) = rs := by
   have hl : ∀ r ∈ rs, ∀ c ∈ r.seq, letter c = true := fun r hr => (h.2 r hr).2
   unfold layoutFasta at hfit ⊢
   rw [parse_render m _ _ (blocksOf rs ℓ.recs) (allLines_clean rs ℓ.recs h.2 hℓ) (allLines_texts rs ℓ.recs)
-    (blocksOf_ok rs ℓ.recs hl) (blocksOf_ne_nil ℓ.recs h.1) hfit, blocksOf_toRec rs ℓ.recs hl]
+    (blocksOf_ok rs ℓ.recs hℓ hl) (blocksOf_ne_nil ℓ.recs h.1) hfit, blocksOf_toRec rs ℓ.recs hℓ hl]
 
 /-- any two layouts of the same records, and `Build`'s own output, parse alike -/
 theorem parse_layout_invariant (m : Nat) (rs : List Rec) (ℓ ℓ' : FastaLayout) (h : WFRecs rs)
@@ -157,21 +158,23 @@ theorem parseCollect_eq (text : Str) : parseCollect text = parseNow text := by
 
 /-! ### non-vacuity: concrete inputs meeting the hypotheses (tests on literals, not theorems) -/
 
-def exRecs : List Rec := [⟨"seq 1 |x".toList, "ACGTNacgt".toList⟩, ⟨[], []⟩, ⟨">;".toList, "M".toList⟩]
+def exRecs : List Rec := [⟨"seq 1 |x é世".toList, "ACGTNacgt".toList⟩, ⟨[], []⟩, ⟨">;".toList, "M".toList⟩]
 
 def exLayout : FastaLayout :=
   { recs := [{ before := [.blank, .comment " c".toList], widths := [0, 2], width := 1, crlf := true,
                between := [.blank] },
-             { after := [.comment [], .blank] }],
+             { after := [.comment [], .blank, .spaces " \t ".toList] }],
     finalNewline := false }
 
 example : WFRecs exRecs := by decide
 example : WFLayout exLayout := by decide
 example : LinesFit 64 (layoutFasta exRecs exLayout) := by decide
 example : layoutFasta exRecs exLayout =
-    "\r\n; c\r\n>seq 1 |x\r\nA\r\n\r\nCGT\r\n\r\nNa\r\n\r\ncg\r\n\r\nt\r\n\r\n>\n;\n\n>>;\nM".toList := by decide
+    "\r\n; c\r\n>seq 1 |x é世\r\nA\r\n\r\nCGT\r\n\r\nNa\r\n\r\ncg\r\n\r\nt\r\n\r\n>\n;\n\n \t \n>>;\nM".toList := by decide
 example : parse 64 (layoutFasta exRecs exLayout) = exRecs := by decide
 example : parse 64 (build exRecs) = exRecs := by decide
+-- regression for the fixed finding C13-whitespace-line (2e08c5c): a line of blanks between sequence lines is skipped
+example : parse 64 ">a\nAC\n  \nGT\n".toList = [⟨"a".toList, "ACGT".toList⟩] := by decide
 -- outside the domain the conclusion fails: a sequence "line" that starts with '>' is a header
 example : parse 64 (build [⟨"a".toList, ">b".toList⟩]) ≠ [⟨"a".toList, ">b".toList⟩] := by decide
 -- a line longer than the scanner's limit ends the parse silently (the defect fixed by 99317d2 had m = 65536)
